@@ -340,6 +340,37 @@ def check(repo, rep):
                                    for l in rl for t_ in [l.value] + [e[1] for e in l.effects if e[0] == 'call'] if t_ is not None for x in walk(t_))
         rep.ob('overlap read(): exhausted generator maps to None', has_stop, W(cx.fn(mod, '_OverlapAudioReader.read')), '_OverlapAudioReader.read:StopIteration')
 
+        # a block generator built by the constructor exists before open(): a read() on the not-yet-open reader must not let the
+        # inner source's "not open" error escape from INSIDE the generator (that finishes the generator for good: every read()
+        # after open() would then return None).  Accepted: an is_open() test before the first inner read in the generator, an
+        # is_open() test before next() in read(), or open() re-creating the generator.
+        ctor_built = any(e[0] == 'store' and any(x[0] == 'call' and x[1] == ('attr', ('self',), g.name) for x in walk(e[2]) if isinstance(x, tuple) and x)
+                         for l in cx.leaves(mod, '_OverlapAudioReader.__init__') for e in l.effects if e[0] == 'store' and len(e) > 2 and isinstance(e[2], tuple))
+        def _before(effs, is_target):
+            out = []
+            for e in effs:
+                if is_target(e):
+                    return out
+                out.append(e)
+            return None
+        is_inner_read = lambda e: e[0] == 'call' and e[1][0] == 'call' and e[1][1][0] == 'attr' and e[1][1][2] == 'read' and e[1][1][1] != ('self',)
+        is_next = lambda e: e[0] == 'call' and e[1][0] == 'call' and e[1][1] == ('b', 'next')
+        pre_gen = [b for b in (_before(l.effects, is_inner_read) for l in gl) if b is not None]
+        pre_read = [b for b in (_before(l.effects, is_next) for l in rl) if b is not None]
+        mentions = lambda effs: any(e[0] in ('call', 'eval') and "'is_open'" in repr(e[1]) for e in effs)
+        has_open_override = any(isinstance(f, ast.FunctionDef) and f.name == 'open' and any(isinstance(x, ast.Attribute) and x.attr == g.name for x in ast.walk(f))
+                                for f in cx.cls(mod, '_OverlapAudioReader').body)
+        if ctor_built and pre_gen and pre_read:
+            guarded = all(mentions(b) for b in pre_gen) or all(mentions(b) for b in pre_read) or has_open_override
+            plain = all(not any(e[0] == 'call' for e in b) for b in pre_gen + pre_read)
+            if guarded or plain:
+                rep.ob('a read() before open() does not finish the block generator built by the constructor (is_open() is tested before the first inner read, or open() rebuilds the generator)',
+                       guarded, W(g), '%s:closed-guard' % g.name,
+                       'the generator is built in __init__ and its first statement reaching the source is an unguarded read: on a reader that is not open yet the source\'s AudioIOError escapes from inside the generator, '
+                       'which ends it; after open() every read() returns None', sample=dict(generator=g.name, guard='none'))
+            else:
+                rep.unknown('%s: calls precede the first inner read / next() but none is an is_open() test: whether a read() before open() finishes the generator was not decided' % g.name)
+
     # ---------------------------------------------------------------- R5 wrapper composition order in AudioReader.__init__
     il = cx.leaves(mod, 'AudioReader.__init__')
     ainit = cx.fn(mod, 'AudioReader.__init__')
